@@ -552,6 +552,16 @@ def extract_segment(relpath, qual, ann):
             if q < 0: break
             ed.add(s0 + q, s0 + q + len(ob), new.strip(), rule, "catalogue desugaring: " + old.strip()[:60]); pos = q + len(ob)
     seg_loops = [l for l in it.get("loops", []) if inside(l["span"])]
+    # D15: the segment is (part of) a loop body: `break;` / `continue;` of the ENCLOSING loop become return codes of the segment function
+    if ann.get("seg_brk") or ann.get("seg_cont"):
+        if seg_loops:
+            raise Inconclusive(f"D15: segment of {qual} contains loops; break/continue cannot be attributed")
+        body = src[s0:e0].decode()
+        for kw, key in (("break", "seg_brk"), ("continue", "seg_cont")):
+            for mm in re.finditer(r"\b" + kw + r"\s*;", body):
+                if not ann.get(key):
+                    raise Inconclusive(f"D15: segment of {qual} has `{kw}` but no return code was declared for it")
+                ed.add(s0 + mm.start(), s0 + mm.end(), f"return Ok({ann[key]});", "D15", f"`{kw}` of the enclosing loop becomes a return code of the segment")
     for k, ptext in (ann.get("loopheads") or {}).items():
         k = int(k)
         if k >= len(seg_loops): raise Inconclusive(f"anchor lost: loop #{k} of segment of {qual}")
